@@ -118,7 +118,8 @@ def _remove_guard(ctx):
                 ctx.check(ok, 'EXC', f"{fi.qualname}: {lst}.remove({x}) is guarded",
                           'membership test / try', f"`{norm(c)}` without `if {x} in {lst}`: ValueError when the element is absent",
                           key=f"EXC|{fi.qualname}|remove|{lst}", where=common.loc(fi, c))
-    ctx.floor('list.remove sites', n, 1)
+    if n == 0:
+        ctx.ok('EXC', 'no list.remove() call in the parser package')
 
 
 def _group_subscripts(ctx):
